@@ -56,3 +56,26 @@ Definition check_trie (kvs : list ent) (o : tobs) : nat * nat :=
        ents_eqb (o_iter o) kvs &&
        forallb (fun '(p, r) => ents_eqb (with_prefix p kvs) r) (o_prefix o)
     then worst (map (fun '(k, r) => seek_class kvs k r) (o_seeks o)) else 1)%nat).
+
+(* ---- a bucket: several dictionaries (one per table file), observed before and after they are merged by a compaction ---- *)
+From LinDBV.C20 Require Bucket.
+Record bobs := {
+  b_gets : list (key * option V);              (* GetValue *)
+  b_values : list V;                           (* GetValues *)
+  b_suggest : list (key * nat * list key);     (* Suggest(prefix, limit) *)
+  b_collect : list (V * option key) }.         (* CollectKVs: the key found for a value *)
+Definition okey_eqb (a b : option key) : bool :=
+  match a, b with Some x, Some y => nats_eqb x y | None, None => true | _, _ => false end.
+Fixpoint key_of (v : V) (l : list ent) : option key :=
+  match l with [] => None | (k, w) :: l' => if w =? v then Some k else key_of v l' end.
+Definition bucket_ok (u : list ent) (o : bobs) : bool :=
+  forallb (fun '(k, r) => ov_eqb (assoc k u) r) (b_gets o) &&
+  (length (b_values o) =? length u) && forallb (fun e => existsb (Nat.eqb (snd e)) (b_values o)) u &&
+  forallb (fun '(p, lim, r) => keys_eqb (firstn lim (map fst (with_prefix p u))) r) (b_suggest o) &&
+  forallb (fun '(v, r) => okey_eqb (key_of v u) r) (b_collect o).
+(* [ds]: the dictionaries, each sorted; [o1]: the bucket read over all files; [o2]: after the compaction merged them *)
+Definition check_bucket (ds : list (list ent)) (o1 o2 : bobs) : nat * nat :=
+  let u := Bucket.union ds in
+  ((if forallb (fun '(k, r) => ov_eqb (Bucket.bget ds k) r) (b_gets o1) &&
+       forallb (fun '(k, r) => ov_eqb (assoc k u) r) (b_gets o2) then 0 else 1),
+   (if bucket_ok u o1 then (if bucket_ok u o2 then 0 else 131) else 130))%nat.
